@@ -169,6 +169,13 @@ func (w *W) Count(name string, n int64) {
 	w.mu.Unlock()
 }
 
+// Violations returns the number of violations recorded by this worker so far.
+func (w *W) Violations() int {
+	w.mu.Lock()
+	defer w.mu.Unlock()
+	return len(w.viols)
+}
+
 // Max keeps the maximum of a gauge.
 func (w *W) Max(name string, n int64) {
 	w.mu.Lock()
@@ -1088,10 +1095,16 @@ func writeEvidence(c Check, o DriverOpts, m *Merged, known map[string]int, newVi
 		"violations":  newViol,
 	}
 	b, _ := json.MarshalIndent(ev, "", " ")
-	os.MkdirAll(filepath.Join(o.Root, "evidence"), 0o755)
-	tmp := filepath.Join(o.Root, "evidence", c.ID()+".json.tmp")
+	evDir := filepath.Join(o.Root, "evidence")
+	if r := os.Getenv("VERIF_REPO"); r != "" && r != "/repo" {
+		// a self-test against a scratch copy (mutant, seed): its observations
+		// are not evidence about /repo
+		evDir = filepath.Join(o.Root, "replays", "selftest-evidence")
+	}
+	os.MkdirAll(evDir, 0o755)
+	tmp := filepath.Join(evDir, c.ID()+".json.tmp")
 	os.WriteFile(tmp, append(b, '\n'), 0o644)
-	os.Rename(tmp, filepath.Join(o.Root, "evidence", c.ID()+".json"))
+	os.Rename(tmp, filepath.Join(evDir, c.ID()+".json"))
 }
 
 // AllStacks returns a dump of all goroutines.
